@@ -239,7 +239,12 @@ pub fn subpacket_area(t: &mut Tape, max_total: usize, labels: &mut Vec<String>, 
             subpacket_body(t, typ, depth)
         };
         let typ = if body.len() > 400 && !matches!(typ, 24 | 26 | 28 | 20) { 100 } else { typ };
-        let sp = subpacket(typ, critical, &body, true);
+        // now and then a legal but non-minimal (five-octet) length form
+        let minimal = !t.chance(14);
+        if !minimal {
+            labels.push("noncanonical-length-form".to_string());
+        }
+        let sp = subpacket(typ, critical, &body, minimal);
         if area.len() + sp.len() > max_total {
             break;
         }
@@ -571,6 +576,7 @@ pub fn gen_simple(t: &mut Tape) -> Gen {
             // user attribute: sequence of subpackets (same length encoding as signature subpackets)
             let n = t.range(1, 3);
             let mut v = vec![];
+            let mut noncanonical = false;
             for _ in 0..n {
                 let image = t.chance(180);
                 let mut sp = vec![];
@@ -583,12 +589,18 @@ pub fn gen_simple(t: &mut Tape) -> Gen {
                 }
                 let typ = if image { 1 } else { *t.pick(&[2u8, 100, 110]) };
                 let l = sp.len() + 1;
-                let form = if l < 192 { 1 } else if l < 16320 { 2 } else { 5 };
+                let nonminimal = t.chance(25);
+                noncanonical |= nonminimal;
+                let form = if nonminimal { 5 } else if l < 192 { 1 } else if l < 16320 { 2 } else { 5 };
                 v.extend_from_slice(&subpacket_len(l, form));
                 v.push(typ);
                 v.extend_from_slice(&sp);
             }
-            Gen { tag: 17, what: format!("user attribute {} subpackets, {} bytes", n, v.len()), labels: vec!["userattr".into(), len_class(v.len())], body: v }
+            let mut labels = vec!["userattr".to_string(), len_class(v.len())];
+            if noncanonical {
+                labels.push("noncanonical-length-form".to_string());
+            }
+            Gen { tag: 17, what: format!("user attribute {} subpackets, {} bytes", n, v.len()), labels, body: v }
         }
     }
 }
